@@ -15,6 +15,7 @@ from mc.runner import Result
 
 PROPERTY = "C18"
 LEVEL = "model_checking"
+TECHNIQUE = "bounded exhaustive enumeration of group sizes x NaN counts x q against numpy.quantile"
 ENGINE = "E1"
 RULE = (
     "state = (reduction, q, engine, dtype, batch rank, label tuple over {0,1,2,NaN}^n, value tuple over {1,-2,0.5,NaN}^n "
